@@ -205,7 +205,7 @@ package lang
 //@   ensures[C05] num-coercion: same(result, specNum(*v))
 //@   modifies nothing
 
-//@ func Value.String [C05]
+//@ func Value.String [C05,C18]
 //@   requires v != nil
 //@   ensures[C05] str-coercion: result == specStr(*v)
 //@   modifies nothing
@@ -493,7 +493,7 @@ package lang
 //@   trusted
 //@   pure
 
-//@ func Evaluator.error [C01,C11,C12]
+//@ func Evaluator.error [C01,C11,C12,C16]
 //@   requires e != nil && e.lexer != nil
 //@   updates $faulted
 //@   init $faulted = true
@@ -810,7 +810,7 @@ package lang
 //@   ensures[C11] fault-latched: $faulted <==> err != nil
 //@   ensures[C09,C11] scalar-parent-refuses: scalarTag(old(specObj.Value.ParentObj.Tag)) ==> err != nil
 
-//@ func copyValue [C01,C09,C11]
+//@ func copyValue [C01,C09,C11,C16]
 //@   requires from != nil && to != nil && !$faulted
 //@   updates $faulted
 //@   ensures[C09] returns-target: err == nil ==> result0 == to
@@ -1138,9 +1138,17 @@ package lang
 //@ ghost $calleeSeen bool
 //@ ghost $itemErr error
 //@ ghost $litText string
-//@ func Parser.printStatement [C01,C13]
+//@ ghost $pconsumed int
+//@ ghost $kwEnd bool
+//@ func Parser.printStatement [C01,C13,C17]
 //@   requires parserOK(p)
 //@   updates nothing
+//@   init $pconsumed = 0
+//@   init $kwEnd = false
+//@   after Parser.consume: $kwEnd = ($pconsumed == 0 ? (p.didEndStatement || p.current.Tag == RCurly || p.current.Tag == SemiColon) : $kwEnd)
+//@   after Parser.consume: $pconsumed = $pconsumed + 1
+//@   ensures[C13,C17] a-statement-end-right-after-print-makes-it-a-bare-print: err == nil && $kwEnd ==> len(result0.Args) == 0
+//@   loop 0 invariant[C13,C17] nothing-parsed-past-an-immediate-end: $pconsumed >= 1 && (!$kwEnd || (len(args) == 0 && (p.didEndStatement || p.current.Tag == RCurly || p.current.Tag == SemiColon)))
 //@   init $sawEnd = false
 //@   after Parser.atStatementEnd: $sawEnd = $sawEnd || ret0
 //@   after Parser.expression: $sawEnd = false
